@@ -113,4 +113,1200 @@ theorem map_canon_qc (ts : List Tok) : (ts.map qc).map canon = ts.map canon := b
 
 theorem sim_qc (ts : List Tok) : Sim ts (ts.map qc) := (map_canon_qc ts).symm
 
+-- ------------------------------------------------------------------ peeks and eats on the image
+theorem peekKw_qc (ts : List Tok) (k : Nat) : peekKw (ts.map qc) k = peekKw ts k := by
+  cases ts <;> simp [peekKw, qc_isKw]
+
+theorem peekSym_qc (ts : List Tok) (s : Sym) (h1 : s ≠ .Eq) (h2 : s ≠ .DoubleEq) :
+    peekSym (ts.map qc) s = peekSym ts s := by
+  cases ts <;> simp [peekSym, qc_isSym _ _ h1 h2]
+
+theorem peekAnyKw_qc (ts : List Tok) (ks : List Nat) : peekAnyKw (ts.map qc) ks = peekAnyKw ts ks := by
+  unfold peekAnyKw
+  induction ks with
+  | nil => rfl
+  | cons k ks ih => simp only [List.any_cons, ih, peekKw_qc]
+
+theorem listEnds_qc (ts : List Tok) : listEnds (ts.map qc) = listEnds ts := by
+  cases ts <;> simp [listEnds, qc_endsList]
+
+/-- image of a `(value, rest)` result -/
+def mp {α : Type} (M : α → α) (p : α × List Tok) : α × List Tok := (M p.1, p.2.map qc)
+
+theorem eatKw_qc (ts : List Tok) (k : Nat) : eatKw (ts.map qc) k = (eatKw ts k).map (mp qc) := by
+  cases ts with
+  | nil => rfl
+  | cons t r => simp only [List.map_cons, eatKw, qc_isKw]; split <;> simp [mp]
+
+theorem eatKws_qc (ks : List Nat) : ∀ ts : List Tok, eatKws (ts.map qc) ks = (eatKws ts ks).map (mp (List.map qc)) := by
+  induction ks with
+  | nil => intro ts; simp [eatKws, mp]
+  | cons k ks ih =>
+    intro ts
+    simp only [eatKws, eatKw_qc]
+    cases h : eatKw ts k with
+    | none => simp
+    | some p =>
+      obtain ⟨t, r⟩ := p
+      simp only [Option.map_some, mp, ih]
+      cases h2 : eatKws r ks with
+      | none => simp
+      | some p2 => obtain ⟨a, b⟩ := p2; simp [mp]
+
+theorem eatSym_qc (ts : List Tok) (s : Sym) (h1 : s ≠ .Eq) (h2 : s ≠ .DoubleEq) :
+    eatSym (ts.map qc) s = (eatSym ts s).map (mp qc) := by
+  cases ts with
+  | nil => rfl
+  | cons t r => simp only [List.map_cons, eatSym, qc_isSym _ _ h1 h2]; split <;> simp [mp]
+
+-- ------------------------------------------------------------------ results on a list and on its image
+/-- the two results fail together or succeed together, the second with the image of the first -/
+def Rel2 {α : Type} (M : α → α) : Res α → Res α → Prop
+  | .ok p, .ok p' => p' = mp M p
+  | .error _, .error _ => True
+  | _, _ => False
+
+@[simp] theorem rel2_ok_ok {α : Type} (M : α → α) (p p' : α × List Tok) :
+    Rel2 M (.ok p) (.ok p') ↔ p' = mp M p := Iff.rfl
+@[simp] theorem rel2_err_err {α : Type} (M : α → α) (e e' : Err) :
+    Rel2 M (.error e : Res α) (.error e') ↔ True := Iff.rfl
+@[simp] theorem rel2_ok_err {α : Type} (M : α → α) (p : α × List Tok) (e' : Err) :
+    Rel2 M (.ok p) (.error e') ↔ False := Iff.rfl
+@[simp] theorem rel2_err_ok {α : Type} (M : α → α) (e : Err) (p' : α × List Tok) :
+    Rel2 M (.error e : Res α) (.ok p') ↔ False := Iff.rfl
+
+theorem Rel2.elim {α : Type} {M : α → α} {x y : Res α} (h : Rel2 M x y) :
+    (∃ v r, x = .ok (v, r) ∧ y = .ok (M v, r.map qc)) ∨ (∃ e e', x = .error e ∧ y = .error e') := by
+  cases x with
+  | error e =>
+    cases y with
+    | error e' => exact Or.inr ⟨e, e', rfl, rfl⟩
+    | ok p' => exact absurd h (by simp)
+  | ok p =>
+    cases y with
+    | error e' => exact absurd h (by simp)
+    | ok p' =>
+      simp at h; subst h
+      exact Or.inl ⟨p.1, p.2, rfl, rfl⟩
+
+theorem rel2_err {α : Type} (M : α → α) (e e' : Err) : Rel2 M (.error e : Res α) (.error e') := trivial
+theorem rel2_ok {α : Type} (M : α → α) (v : α) (r : List Tok) : Rel2 M (.ok (v, r)) (.ok (M v, r.map qc)) := rfl
+
+/-- the two-list form: on two lists with the same image -/
+theorem Rel2.two {α : Type} {M : α → α} {F : List Tok → Res α} (hF : ∀ ts, Rel2 M (F ts) (F (ts.map qc)))
+    {a b : List Tok} (hs : a.map qc = b.map qc) {v : α} {r : List Tok} (h : F a = .ok (v, r)) :
+    ∃ v' r', F b = .ok (v', r') ∧ M v' = M v ∧ r'.map qc = r.map qc := by
+  have h1 := hF a
+  have h2 := hF b
+  rw [h] at h1
+  rw [← hs] at h2
+  cases hb : F b with
+  | error e =>
+    rw [hb] at h2
+    cases ha : F (a.map qc) with
+    | error e' => rw [ha] at h1; simp at h1
+    | ok p => rw [ha] at h2; simp at h2
+  | ok p' =>
+    rw [hb] at h2
+    cases ha : F (a.map qc) with
+    | error e' => rw [ha] at h1; simp at h1
+    | ok p =>
+      rw [ha] at h1 h2
+      simp at h1 h2
+      obtain ⟨v', r'⟩ := p'
+      rw [h1] at h2
+      simp [mp] at h2
+      exact ⟨v', r', rfl, h2.1.symm, h2.2.symm⟩
+
+-- ------------------------------------------------------------------ expressions
+theorem flatten_mapT_qc (e : Expr) : (e.mapT qc).flatten = e.flatten.map qc := flatten_mapT qc rfl rfl e
+
+theorem mapT_canon_qc (e : Expr) : (e.mapT qc).mapT canon = e.mapT canon := by
+  rw [mapT_mapT]; congr 1; funext t; exact canon_qc t
+
+theorem parseSubexpr_qc (c : Cfg) (f d p : Nat) (ts : List Tok) :
+    Rel2 (Expr.mapT qc) (parseSubexpr c f d p ts) (parseSubexpr c f d p (ts.map qc)) := by
+  cases h : parseSubexpr c f d p ts with
+  | ok pr =>
+    obtain ⟨e, r⟩ := pr
+    obtain ⟨e', r', h', he', hr'⟩ := parse_sim c f d p ts _ e r (sim_qc ts) h
+    rw [h']
+    have y1 : ts = e.flatten ++ r := (yield_all c f).1 _ _ _ _ _ h
+    have y2 : ts.map qc = e'.flatten ++ r' := (yield_all c f).1 _ _ _ _ _ h'
+    have hl : r'.length = (r.map qc).length := by
+      rw [List.length_map]; exact (len_of_map hr').symm
+    rw [y1, List.map_append] at y2
+    obtain ⟨a1, a2⟩ := List.append_inj' y2 hl.symm
+    have : e' = e.mapT qc :=
+      mapT_flatten_inj canon _ _ (by rw [he', mapT_canon_qc]) (by rw [flatten_mapT_qc, a1])
+    simp [mp, this, a2]
+  | error er =>
+    cases h2 : parseSubexpr c f d p (ts.map qc) with
+    | error er' => trivial
+    | ok pr =>
+      obtain ⟨e', r'⟩ := pr
+      obtain ⟨e, r, h', _, _⟩ := parse_sim c f d p _ ts e' r' (sim_qc ts).symm h2
+      rw [h] at h'; cases h'
+
+theorem parseE_qc (c : QCfg) (f d : Nat) (ts : List Tok) :
+    Rel2 (Expr.mapT qc) (parseE c f d ts) (parseE c f d (ts.map qc)) := parseSubexpr_qc c.e f d _ ts
+
+-- ------------------------------------------------------------------ images of query trees
+def sepMap {α : Type} (M : α → α) (m : Tok → Tok) (l : Sep α) : Sep α := l.map fun p => (M p.1, p.2.map m)
+
+def SelectItem.mapT (m : Tok → Tok) : SelectItem → SelectItem
+  | .expr e al => .expr (e.mapT m) (al.map m)
+  | .wildcard t => .wildcard (m t)
+  | .qualified toks => .qualified (toks.map m)
+
+def OrderByExpr.mapT (m : Tok → Tok) (o : OrderByExpr) : OrderByExpr := ⟨o.e.mapT m, o.dir.map m, o.nulls.map m⟩
+
+def LimClause.mapT (m : Tok → Tok) : LimClause → LimClause
+  | .limit kw e => .limit (m kw) (e.mapT m)
+  | .limitAll kw a => .limitAll (m kw) (m a)
+  | .offset kw e rows => .offset (m kw) (e.mapT m) (rows.map m)
+  | .comma t e => .comma (m t) (e.mapT m)
+
+def QueryTail.mapT (m : Tok → Tok) (qt : QueryTail) : QueryTail :=
+  ⟨qt.orderKw.map m, sepMap (OrderByExpr.mapT m) m qt.order, qt.lims.map (LimClause.mapT m)⟩
+
+def SelHead.mapT (m : Tok → Tok) (hd : SelHead) : SelHead :=
+  ⟨m hd.sel, hd.quant.map m, hd.distinct, sepMap (SelectItem.mapT m) m hd.proj⟩
+
+def SelTail.mapT (m : Tok → Tok) (tl : SelTail) : SelTail :=
+  ⟨tl.whereKw.map m, tl.selection.map (Expr.mapT m), tl.groupKw.map m, sepMap (Expr.mapT m) m tl.group,
+   tl.havingKw.map m, tl.having.map (Expr.mapT m)⟩
+
+def Conn.mapT (m : Tok → Tok) : Conn → Conn
+  | .from t => .from (m t)
+  | .comma t => .comma (m t)
+  | .join k toks => .join k (toks.map m)
+
+def JoinCstr.mapT (m : Tok → Tok) : JoinCstr → JoinCstr
+  | .none => .none
+  | .on kw e => .on (m kw) (e.mapT m)
+  | .using kw lp cols rp => .using (m kw) (m lp) (sepMap m m cols) (m rp)
+
+def QNode.mapT (m : Tok → Tok) : QNode → QNode
+  | .select hd frm tl => .select (hd.mapT m) (frm.mapT m) (tl.mapT m)
+  | .paren lp body qt rp => .paren (m lp) (body.mapT m) (qt.mapT m) (m rp)
+  | .setOp l o q ops r => .setOp (l.mapT m) o q (ops.map m) (r.mapT m)
+  | .fnil trail => .fnil (trail.map m)
+  | .ftable conn name al cstr rest => .ftable (conn.mapT m) (name.map m) (al.map m) (cstr.mapT m) (rest.mapT m)
+  | .fderived conn lp body qt rp al cstr rest =>
+    .fderived (conn.mapT m) (m lp) (body.mapT m) (qt.mapT m) (m rp) (al.map m) (cstr.mapT m) (rest.mapT m)
+
+def Query.mapT (m : Tok → Tok) (q : Query) : Query := ⟨q.body.mapT m, q.tail.mapT m⟩
+
+-- ------------------------------------------------------------------ head functions
+theorem optAlias_qc (res : List Nat) (ts : List Tok) :
+    Rel2 (List.map qc) (optAlias res ts) (optAlias res (ts.map qc)) := by
+  unfold optAlias
+  rw [eatKw_qc]
+  cases h : eatKw ts K.AS with
+  | some p =>
+    obtain ⟨asT, r⟩ := p
+    simp only [Option.map_some, mp]
+    cases r with
+    | nil => simp
+    | cons t r' => simp only [List.map_cons, qc_isIdentTok]; split <;> simp [mp]
+  | none =>
+    simp only [Option.map_none]
+    cases ts with
+    | nil => simp [mp]
+    | cons t r =>
+      cases t with
+      | word v q kw =>
+        cases kw with
+        | none => simp [qc, mp]
+        | some k => simp only [List.map_cons, qc]; split <;> simp [mp, qc]
+      | sym s => cases s <;> simp [qc, mp]
+      | _ => simp [qc, mp]
+
+theorem identElem_qc (ts : List Tok) : Rel2 qc (identElem ts) (identElem (ts.map qc)) := by
+  unfold identElem
+  cases ts with
+  | nil => simp
+  | cons t r => simp only [List.map_cons, qc_isIdentTok]; split <;> simp [mp]
+
+def QualRes.mapT (m : Tok → Tok) : QualRes → QualRes
+  | .wild toks rest => .wild (toks.map m) (rest.map m)
+  | .notWild => .notWild
+  | .err => .err
+
+theorem qualScan_qc_aux (n : Nat) : ∀ (ts acc : List Tok), ts.length ≤ n →
+    qualScan (acc.map qc) (ts.map qc) = (qualScan acc ts).mapT qc := by
+  induction n with
+  | zero =>
+    intro ts acc h
+    cases ts with
+    | nil => simp [qualScan, QualRes.mapT]
+    | cons _ _ => simp at h
+  | succ n ih =>
+    intro ts acc h
+    cases ts with
+    | nil => simp [qualScan, QualRes.mapT]
+    | cons t rest =>
+      have key : ∀ rest' : List Tok, rest = .sym .Period :: rest' →
+          qualScan ((acc ++ [t, .sym .Period]).map qc) (rest'.map qc) =
+            (qualScan (acc ++ [t, .sym .Period]) rest').mapT qc := by
+        intro rest' hr
+        apply ih
+        subst hr
+        simp at h
+        omega
+      cases t with
+      | word v q kw =>
+        cases rest with
+        | nil => cases kw <;> simp [qualScan, qc, QualRes.mapT]
+        | cons t2 r2 =>
+          cases t2 with
+          | sym s =>
+            cases s <;> first
+              | (have := key r2 rfl; cases kw <;> simpa [qualScan, qc, QualRes.mapT] using this)
+              | (cases kw <;> simp [qualScan, qc, QualRes.mapT])
+          | word a b kw2 => cases kw <;> cases kw2 <;> simp [qualScan, qc, QualRes.mapT]
+          | _ => cases kw <;> simp [qualScan, qc, QualRes.mapT]
+      | sqs x =>
+        cases rest with
+        | nil => simp [qualScan, qc, QualRes.mapT]
+        | cons t2 r2 =>
+          cases t2 with
+          | sym s =>
+            cases s <;> first
+              | (have := key r2 rfl; simpa [qualScan, qc, QualRes.mapT] using this)
+              | simp [qualScan, qc, QualRes.mapT]
+          | word a b kw2 => cases kw2 <;> simp [qualScan, qc, QualRes.mapT]
+          | _ => simp [qualScan, qc, QualRes.mapT]
+      | sym s => cases s <;> simp [qualScan, qc, QualRes.mapT]
+      | _ => simp [qualScan, qc, QualRes.mapT]
+
+theorem qualScan_qc (acc ts : List Tok) : qualScan (acc.map qc) (ts.map qc) = (qualScan acc ts).mapT qc :=
+  qualScan_qc_aux ts.length ts acc (Nat.le_refl _)
+
+theorem isBareFrom_qc (e : Expr) : isBareFrom (e.mapT qc) = isBareFrom e := by
+  cases e with
+  | atom k toks =>
+    cases k <;> try rfl
+    match toks with
+    | [] => rfl
+    | [t] =>
+      cases t with
+      | word v q kw =>
+        cases q with
+        | none =>
+          cases kw with
+          | none => rfl
+          | some k => simp [Expr.mapT, qc, isBareFrom, encV_lower]
+        | some c => cases kw <;> rfl
+      | sym s => cases s <;> rfl
+      | _ => rfl
+    | _ :: _ :: _ => simp [Expr.mapT, isBareFrom]
+  | _ => rfl
+
+theorem wildcardForeign_qc (c : QCfg) (ts : List Tok) : wildcardForeign c (ts.map qc) = wildcardForeign c ts := by
+  simp [wildcardForeign, peekAnyKw_qc, peekKw_qc]
+
+theorem itemViaExpr_qc (c : QCfg) (f d : Nat) (ts : List Tok) :
+    Rel2 (SelectItem.mapT qc) (itemViaExpr c f d ts) (itemViaExpr c f d (ts.map qc)) := by
+  unfold itemViaExpr
+  rcases (parseE_qc c f d ts).elim with ⟨e, r, h1, h2⟩ | ⟨er, er', h1, h2⟩
+  · rw [h1, h2]
+    simp only [isBareFrom_qc]
+    split
+    · simp
+    · rcases (optAlias_qc reservedForColumnAlias r).elim with ⟨al, r', h3, h4⟩ | ⟨er, er', h3, h4⟩
+      · rw [h3, h4]; simp [mp, SelectItem.mapT]
+      · rw [h3, h4]; simp
+  · rw [h1, h2]; simp
+
+theorem selectItem_qc (c : QCfg) (f d : Nat) (ts : List Tok) :
+    Rel2 (SelectItem.mapT qc) (selectItem c f d ts) (selectItem c f d (ts.map qc)) := by
+  have hv := itemViaExpr_qc c f d ts
+  cases ts with
+  | nil => unfold selectItem; exact hv
+  | cons t rest =>
+    simp only [List.map_cons] at hv ⊢
+    have hq : ∀ rest' : List Tok, rest = .sym .Period :: rest' →
+        qualScan [qc t, .sym .Period] (rest'.map qc) = (qualScan [t, .sym .Period] rest').mapT qc := by
+      intro rest' _
+      have := qualScan_qc [t, .sym .Period] rest'
+      simpa [qc_sym] using this
+    cases t with
+    | sym s =>
+      cases s <;> try (unfold selectItem; exact hv)
+      unfold selectItem
+      simp only [qc, wildcardForeign_qc]
+      split <;> simp [mp, SelectItem.mapT, qc]
+    | word v q kw =>
+      cases rest with
+      | nil => unfold selectItem; cases kw <;> exact hv
+      | cons t2 r2 =>
+        cases t2 with
+        | sym s =>
+          cases s <;> try (unfold selectItem; cases kw <;> exact hv)
+          have hq' := hq r2 rfl
+          unfold selectItem
+          cases kw with
+          | none =>
+            simp only [qc, List.map_cons] at hq' hv ⊢
+            rw [hq']
+            cases hh : qualScan [.word v q none, .sym .Period] r2 with
+            | wild toks r =>
+              simp only [QualRes.mapT, wildcardForeign_qc]
+              split <;> simp [mp, SelectItem.mapT]
+            | notWild => simpa [QualRes.mapT] using hv
+            | err => simp [QualRes.mapT]
+          | some k =>
+            simp only [qc, List.map_cons] at hq' hv ⊢
+            rw [hq']
+            cases hh : qualScan [.word v q (some k), .sym .Period] r2 with
+            | wild toks r =>
+              simp only [QualRes.mapT, wildcardForeign_qc]
+              split <;> simp [mp, SelectItem.mapT]
+            | notWild => simpa [QualRes.mapT] using hv
+            | err => simp [QualRes.mapT]
+        | word a b kw2 => unfold selectItem; cases kw <;> cases kw2 <;> exact hv
+        | _ => unfold selectItem; cases kw <;> exact hv
+    | sqs x =>
+      cases rest with
+      | nil => unfold selectItem; exact hv
+      | cons t2 r2 =>
+        cases t2 with
+        | sym s =>
+          cases s <;> try (unfold selectItem; exact hv)
+          have hq' := hq r2 rfl
+          unfold selectItem
+          simp only [qc, List.map_cons] at hq' hv ⊢
+          rw [hq']
+          cases hh : qualScan [.sqs x, .sym .Period] r2 with
+          | wild toks r =>
+            simp only [QualRes.mapT, wildcardForeign_qc]
+            split <;> simp [mp, SelectItem.mapT]
+          | notWild => simpa [QualRes.mapT] using hv
+          | err => simp [QualRes.mapT]
+        | word a b kw2 => unfold selectItem; cases kw2 <;> exact hv
+        | _ => unfold selectItem; exact hv
+    | _ => unfold selectItem; exact hv
+
+theorem emptyTupleAhead_eq (ts : List Tok) :
+    emptyTupleAhead ts = (peekSym ts .LParen && peekSym ts.tail .RParen) := by
+  unfold emptyTupleAhead
+  split
+  · simp [peekSym, Tok.isSym]
+  · rename_i h
+    cases ts with
+    | nil => simp [peekSym]
+    | cons t r =>
+      cases r with
+      | nil => simp [peekSym]
+      | cons t2 r2 =>
+        cases t <;> cases t2 <;> simp_all [peekSym, Tok.isSym]
+
+theorem emptyTupleAhead_qc (ts : List Tok) : emptyTupleAhead (ts.map qc) = emptyTupleAhead ts := by
+  rw [emptyTupleAhead_eq, emptyTupleAhead_eq, peekSym_qc _ _ (by decide) (by decide), ← List.map_tail,
+    peekSym_qc _ _ (by decide) (by decide)]
+
+theorem groupByForeign_qc (c : QCfg) (ts : List Tok) : groupByForeign c (ts.map qc) = groupByForeign c ts := by
+  simp [groupByForeign, peekAnyKw_qc, emptyTupleAhead_qc]
+
+theorem groupByElem_qc (c : QCfg) (f d : Nat) (ts : List Tok) :
+    Rel2 (Expr.mapT qc) (groupByElem c f d ts) (groupByElem c f d (ts.map qc)) := by
+  unfold groupByElem
+  rw [groupByForeign_qc]
+  split
+  · simp
+  · exact parseE_qc c f d ts
+
+theorem dirTail_qc (ts : List Tok) : dirTail (ts.map qc) = mp (List.map qc) (dirTail ts) := by
+  unfold dirTail
+  simp only [eatKw_qc]
+  cases eatKw ts K.ASC <;> cases eatKw ts K.DESC <;> simp [mp]
+
+theorem rowsTail_qc (ts : List Tok) : rowsTail (ts.map qc) = mp (List.map qc) (rowsTail ts) := by
+  unfold rowsTail
+  simp only [eatKw_qc]
+  cases eatKw ts K.ROW <;> cases eatKw ts K.ROWS <;> simp [mp]
+
+theorem allTail_qc (ts : List Tok) : allTail (ts.map qc) = mp (List.map qc) (allTail ts) := by
+  unfold allTail
+  simp only [eatKw_qc]
+  cases eatKw ts K.ALL <;> simp [mp]
+
+theorem nullsTail_qc (ts : List Tok) : nullsTail (ts.map qc) = mp (List.map qc) (nullsTail ts) := by
+  unfold nullsTail
+  simp only [eatKws_qc]
+  cases eatKws ts [K.NULLS, K.FIRST] <;> cases eatKws ts [K.NULLS, K.LAST] <;> simp [mp]
+
+theorem withFillAhead_qc (c : QCfg) (ts : List Tok) : withFillAhead c (ts.map qc) = withFillAhead c ts := by
+  unfold withFillAhead
+  rw [eatKws_qc]
+  cases eatKws ts [K.WITH, K.FILL] <;> simp
+
+theorem orderByElem_qc (c : QCfg) (f d : Nat) (ts : List Tok) :
+    Rel2 (OrderByExpr.mapT qc) (orderByElem c f d ts) (orderByElem c f d (ts.map qc)) := by
+  unfold orderByElem
+  rcases (parseE_qc c f d ts).elim with ⟨e, r, h1, h2⟩ | ⟨er, er', h1, h2⟩
+  · rw [h1, h2]
+    simp only [dirTail_qc, nullsTail_qc, mp, withFillAhead_qc]
+    split <;> simp [mp, OrderByExpr.mapT]
+  · rw [h1, h2]; simp
+
+-- ------------------------------------------------------------------ lists
+theorem commaSepE_qc {α : Type} (tc : Bool) (elem elem' : List Tok → Res α) (M : α → α)
+    (hel : ∀ ts, Rel2 M (elem ts) (elem' (ts.map qc))) :
+    ∀ (n : Nat) (ts : List Tok), Rel2 (sepMap M qc) (commaSepE tc elem n ts) (commaSepE tc elem' n (ts.map qc)) := by
+  intro n
+  induction n with
+  | zero => intro ts; simp [commaSepE]
+  | succ n ih =>
+    intro ts
+    simp only [commaSepE]
+    rcases (hel ts).elim with ⟨v, r, h1, h2⟩ | ⟨er, er', h1, h2⟩
+    · rw [h1, h2]
+      simp only
+      cases r with
+      | nil => simp [mp, sepMap]
+      | cons t r2 =>
+        cases t with
+        | sym s =>
+          cases s <;> try (simp [mp, sepMap, qc]; done)
+          simp only [List.map_cons, qc, listEnds_qc]
+          split
+          · simp [mp, sepMap, qc]
+          · rcases (ih r2).elim with ⟨vs, r3, h3, h4⟩ | ⟨er, er', h3, h4⟩
+            · rw [h3, h4]; simp [mp, sepMap, qc]
+            · rw [h3, h4]; simp
+        | word a b kw => cases kw <;> simp [mp, sepMap, qc]
+        | _ => simp [mp, sepMap, qc]
+    · rw [h1, h2]; simp
+
+-- ------------------------------------------------------------------ LIMIT / OFFSET
+def limStMap (st : Option Expr × Option (Expr × List Tok)) : Option Expr × Option (Expr × List Tok) :=
+  (st.1.map (Expr.mapT qc), st.2.map fun p => (p.1.mapT qc, p.2.map qc))
+
+theorem limSem_qc (cs : List LimClause) : limSem (cs.map (LimClause.mapT qc)) = limStMap (limSem cs) := by
+  unfold limSem
+  have : ∀ (cs : List LimClause) (st : Option Expr × Option (Expr × List Tok)),
+      List.foldl (fun st cl =>
+        match cl with
+        | .limit _ e => (some e, st.2)
+        | .limitAll _ _ => (none, st.2)
+        | .offset _ e rows => (st.1, some (e, rows))
+        | .comma _ e => (some e, st.1.map fun l => (l, []))) (limStMap st) (cs.map (LimClause.mapT qc)) =
+      limStMap (List.foldl (fun st cl =>
+        match cl with
+        | .limit _ e => (some e, st.2)
+        | .limitAll _ _ => (none, st.2)
+        | .offset _ e rows => (st.1, some (e, rows))
+        | .comma _ e => (some e, st.1.map fun l => (l, []))) st cs) := by
+    intro cs
+    induction cs with
+    | nil => intro st; rfl
+    | cons cl rest ih =>
+      intro st
+      simp only [List.map_cons, List.foldl_cons]
+      rw [← ih]
+      congr 1
+      cases cl <;> simp [LimClause.mapT, limStMap]
+      cases st.1 <;> simp
+  exact this cs (none, none)
+
+theorem limSem_qc1 (cs : List LimClause) :
+    (limSem (cs.map (LimClause.mapT qc))).1.isNone = (limSem cs).1.isNone := by
+  rw [limSem_qc]; simp [limStMap]
+theorem limSem_qc2 (cs : List LimClause) :
+    (limSem (cs.map (LimClause.mapT qc))).2.isNone = (limSem cs).2.isNone := by
+  rw [limSem_qc]; simp [limStMap]
+theorem limSem_qc1' (cs : List LimClause) :
+    (limSem (cs.map (LimClause.mapT qc))).1.isSome = (limSem cs).1.isSome := by
+  rw [limSem_qc]; simp [limStMap]
+
+theorem limPart_qc (c : QCfg) (f d : Nat) (cs : List LimClause) (ts : List Tok) :
+    Rel2 (List.map (LimClause.mapT qc)) (limPart c f d cs ts) (limPart c f d (cs.map (LimClause.mapT qc)) (ts.map qc)) := by
+  unfold limPart
+  rw [limSem_qc1, eatKw_qc]
+  split
+  · cases h : eatKw ts K.LIMIT with
+    | none => simp [mp]
+    | some p =>
+      obtain ⟨kw, r⟩ := p
+      simp only [Option.map_some, mp, eatKw_qc]
+      cases h2 : eatKw r K.ALL with
+      | some p2 => obtain ⟨a, r'⟩ := p2; simp [mp, LimClause.mapT]
+      | none =>
+        simp only [Option.map_none]
+        rcases (parseE_qc c f d r).elim with ⟨e, r', h1, h2⟩ | ⟨er, er', h1, h2⟩
+        · rw [h1, h2]; simp [mp, LimClause.mapT]
+        · rw [h1, h2]; simp
+  · simp [mp]
+
+theorem offPart_qc (c : QCfg) (f d : Nat) (cs : List LimClause) (ts : List Tok) :
+    Rel2 (List.map (LimClause.mapT qc)) (offPart c f d cs ts) (offPart c f d (cs.map (LimClause.mapT qc)) (ts.map qc)) := by
+  unfold offPart
+  rw [limSem_qc2, eatKw_qc]
+  split
+  · cases h : eatKw ts K.OFFSET with
+    | none => simp [mp]
+    | some p =>
+      obtain ⟨kw, r⟩ := p
+      simp only [Option.map_some, mp]
+      rcases (parseE_qc c f d r).elim with ⟨e, r', h1, h2⟩ | ⟨er, er', h1, h2⟩
+      · rw [h1, h2]; simp [mp, LimClause.mapT, rowsTail_qc]
+      · rw [h1, h2]; simp
+  · simp [mp]
+
+theorem commaPart_qc (c : QCfg) (f d : Nat) (cs : List LimClause) (ts : List Tok) :
+    Rel2 (List.map (LimClause.mapT qc)) (commaPart c f d cs ts) (commaPart c f d (cs.map (LimClause.mapT qc)) (ts.map qc)) := by
+  unfold commaPart
+  rw [limSem_qc1', limSem_qc2]
+  split
+  · cases ts with
+    | nil => simp [mp]
+    | cons t r =>
+      cases t with
+      | sym s =>
+        cases s <;> try (simp [mp, qc]; done)
+        simp only [List.map_cons, qc]
+        rcases (parseE_qc c f d r).elim with ⟨e, r', h1, h2⟩ | ⟨er, er', h1, h2⟩
+        · rw [h1, h2]; simp [mp, LimClause.mapT, qc]
+        · rw [h1, h2]; simp
+      | word a b kw => cases kw <;> simp [mp, qc]
+      | _ => simp [mp, qc]
+  · simp [mp]
+
+theorem limStep_qc (c : QCfg) (f d : Nat) (cs : List LimClause) (ts : List Tok) :
+    Rel2 (List.map (LimClause.mapT qc)) (limStep c f d cs ts) (limStep c f d (cs.map (LimClause.mapT qc)) (ts.map qc)) := by
+  unfold limStep
+  rcases (limPart_qc c f d cs ts).elim with ⟨cs1, ts1, h1, h2⟩ | ⟨er, er', h1, h2⟩
+  · rw [h1, h2]
+    simp only
+    rcases (offPart_qc c f d cs1 ts1).elim with ⟨cs2, ts2, h3, h4⟩ | ⟨er, er', h3, h4⟩
+    · rw [h3, h4]; exact commaPart_qc c f d cs2 ts2
+    · rw [h3, h4]; simp
+  · rw [h1, h2]; simp
+
+theorem queryTailForeign_qc (ts : List Tok) : queryTailForeign (ts.map qc) = queryTailForeign ts :=
+  peekAnyKw_qc _ _
+
+theorem orderPart_qc (c : QCfg) (f d : Nat) (ts : List Tok) :
+    Rel2 (fun ko => (ko.1.map qc, sepMap (OrderByExpr.mapT qc) qc ko.2)) (orderPart c f d ts) (orderPart c f d (ts.map qc)) := by
+  unfold orderPart
+  rw [eatKws_qc]
+  cases h : eatKws ts [K.ORDER, K.BY] with
+  | none => simp [mp, sepMap]
+  | some p =>
+    obtain ⟨kws, r⟩ := p
+    simp only [Option.map_some, mp]
+    rcases (commaSepE_qc c.e.trailingCommas _ _ _ (orderByElem_qc c f d) f r).elim with ⟨os, r', h1, h2⟩ | ⟨er, er', h1, h2⟩
+    · rw [h1, h2]
+      simp only [peekKw_qc]
+      split <;> simp [mp]
+    · rw [h1, h2]; simp
+
+theorem queryTail_qc (c : QCfg) (f d : Nat) (ts : List Tok) :
+    Rel2 (QueryTail.mapT qc) (queryTail c f d ts) (queryTail c f d (ts.map qc)) := by
+  unfold queryTail
+  rcases (orderPart_qc c f d ts).elim with ⟨ko, ts1, h1, h2⟩ | ⟨er, er', h1, h2⟩
+  · rw [h1, h2]
+    simp only
+    have h0 := limStep_qc c f d [] ts1
+    simp only [List.map_nil] at h0
+    rcases h0.elim with ⟨cs1, ts2, h3, h4⟩ | ⟨er, er', h3, h4⟩
+    · rw [h3, h4]
+      simp only
+      rcases (limStep_qc c f d cs1 ts2).elim with ⟨cs2, ts3, h5, h6⟩ | ⟨er, er', h5, h6⟩
+      · rw [h5, h6]
+        simp only [queryTailForeign_qc]
+        split <;> simp [mp, QueryTail.mapT]
+      · rw [h5, h6]; simp
+    · rw [h3, h4]; simp
+  · rw [h1, h2]; simp
+
+-- ------------------------------------------------------------------ set operators and joins
+theorem setOpOf_qc (t : Tok) : setOpOf (qc t) = setOpOf t := by
+  simp [setOpOf, qc_isKw]
+
+theorem setQuant_qc (ts : List Tok) :
+    setQuant (ts.map qc) = ((setQuant ts).1, (setQuant ts).2.1.map qc, (setQuant ts).2.2.map qc) := by
+  unfold setQuant
+  simp only [eatKws_qc, eatKw_qc]
+  cases h1 : eatKws ts [K.DISTINCT, K.BY, K.NAME] with
+  | some p => simp [mp]
+  | none =>
+    cases h2 : eatKws ts [K.BY, K.NAME] with
+    | some p => simp [mp]
+    | none =>
+      cases h3 : eatKw ts K.ALL with
+      | some p =>
+        simp only [Option.map_some, mp, eatKws_qc]
+        cases h4 : eatKws p.2 [K.BY, K.NAME] with
+        | some q => simp [mp]
+        | none => simp
+      | none =>
+        cases h4 : eatKw ts K.DISTINCT with
+        | some p => simp [mp]
+        | none => simp
+
+def JoinHead.mapT (m : Tok → Tok) : JoinHead → JoinHead
+  | .stop => .stop
+  | .join k toks rest => .join k (toks.map m) (rest.map m)
+
+/-- case split on an `eatKw` whose image has been rewritten by `eatKw_qc` -/
+macro "ck" t:term : tactic =>
+  `(tactic| (generalize $t = x; cases x <;> simp only [Option.map_some, Option.map_none, mp, eatKw_qc, peekKw_qc]))
+
+theorem leftRightTail_qc (k0 : JoinKind) (t : Tok) (r : List Tok) :
+    leftRightTail k0 (qc t) (r.map qc) = (leftRightTail k0 t r).map (JoinHead.mapT qc) := by
+  unfold leftRightTail
+  simp only [eatKw_qc, peekKw_qc]
+  ck eatKw r K.OUTER
+  · split
+    · rfl
+    · ck eatKw r K.JOIN <;> simp [Except.map, JoinHead.mapT]
+  · rename_i p
+    ck eatKw p.2 K.JOIN <;> simp [Except.map, JoinHead.mapT]
+
+theorem joinHead_qc (ts : List Tok) : joinHead (ts.map qc) = (joinHead ts).map (JoinHead.mapT qc) := by
+  unfold joinHead
+  simp only [eatKw_qc, peekKw_qc]
+  split
+  · rfl
+  ck eatKw ts K.CROSS
+  rotate_left
+  · rename_i p
+    ck eatKw p.2 K.JOIN
+    · split <;> rfl
+    · simp [Except.map, JoinHead.mapT]
+  ck eatKw ts K.OUTER
+  rotate_left
+  · split <;> rfl
+  split
+  · rfl
+  ck eatKw ts K.INNER
+  rotate_left
+  · rename_i p
+    ck eatKw p.2 K.JOIN <;> simp [Except.map, JoinHead.mapT]
+  ck eatKw ts K.JOIN
+  rotate_left
+  · simp [Except.map, JoinHead.mapT]
+  ck eatKw ts K.LEFT
+  rotate_left
+  · exact leftRightTail_qc _ _ _
+  ck eatKw ts K.RIGHT
+  rotate_left
+  · exact leftRightTail_qc _ _ _
+  ck eatKw ts K.FULL
+  · rfl
+  · rename_i p
+    ck eatKw p.2 K.OUTER
+    · ck eatKw p.2 K.JOIN <;> simp [Except.map, JoinHead.mapT]
+    · rename_i p2
+      ck eatKw p2.2 K.JOIN <;> simp [Except.map, JoinHead.mapT]
+
+theorem joinCstr_qc (c : QCfg) (f d : Nat) (ts : List Tok) :
+    Rel2 (JoinCstr.mapT qc) (joinCstr c f d ts) (joinCstr c f d (ts.map qc)) := by
+  unfold joinCstr
+  simp only [eatKw_qc]
+  cases h : eatKw ts K.ON with
+  | some p =>
+    obtain ⟨kw, r⟩ := p
+    simp only [Option.map_some, mp]
+    rcases (parseE_qc c f d r).elim with ⟨e, r', h1, h2⟩ | ⟨er, er', h1, h2⟩
+    · rw [h1, h2]; simp [mp, JoinCstr.mapT]
+    · rw [h1, h2]; simp
+  | none =>
+    simp only [Option.map_none]
+    cases h2 : eatKw ts K.USING with
+    | none => simp [mp, JoinCstr.mapT]
+    | some p =>
+      obtain ⟨kw, r⟩ := p
+      simp only [Option.map_some, mp]
+      cases r with
+      | nil => simp
+      | cons t r1 =>
+        cases t with
+        | sym s =>
+          cases s <;> try (simp [qc]; done)
+          simp only [List.map_cons, qc]
+          rcases (commaSepE_qc c.e.trailingCommas _ _ _ identElem_qc f r1).elim with ⟨cols, r2, h3, h4⟩ | ⟨er, er', h3, h4⟩
+          · rw [h3, h4]
+            simp only
+            cases r2 with
+            | nil => simp
+            | cons t2 r3 =>
+              cases t2 with
+              | sym s2 => cases s2 <;> simp [qc, mp, JoinCstr.mapT]
+              | word a b kw2 => cases kw2 <;> simp [qc]
+              | _ => simp [qc]
+          · rw [h3, h4]; simp
+        | word a b kw2 => cases kw2 <;> simp [qc]
+        | _ => simp [qc]
+
+theorem optCstr_qc (c : QCfg) (f d : Nat) (b : Bool) (ts : List Tok) :
+    Rel2 (JoinCstr.mapT qc) (optCstr c f d b ts) (optCstr c f d b (ts.map qc)) := by
+  unfold optCstr
+  split
+  · exact joinCstr_qc c f d ts
+  · simp [mp, JoinCstr.mapT]
+
+theorem objectName_qc_aux (n : Nat) : ∀ (ts acc : List Tok), ts.length ≤ n →
+    Rel2 (List.map qc) (objectName acc ts) (objectName (acc.map qc) (ts.map qc)) := by
+  induction n with
+  | zero =>
+    intro ts acc h
+    cases ts with
+    | nil => simp [objectName]
+    | cons _ _ => simp at h
+  | succ n ih =>
+    intro ts acc h
+    cases ts with
+    | nil => simp [objectName]
+    | cons t rest =>
+      simp only [List.map_cons]
+      unfold objectName
+      rw [qc_isIdentTok]
+      split
+      · cases rest with
+        | nil => simp [mp]
+        | cons t2 r2 =>
+          cases t2 with
+          | sym s =>
+            cases s <;> try (simp [mp, qc]; done)
+            have := ih r2 (acc ++ [t, .sym .Period]) (by simp at h; omega)
+            simpa [qc] using this
+          | word a b kw => cases kw <;> simp [mp, qc]
+          | _ => simp [mp, qc]
+      · simp
+
+theorem objectName_qc (acc ts : List Tok) :
+    Rel2 (List.map qc) (objectName acc ts) (objectName (acc.map qc) (ts.map qc)) :=
+  objectName_qc_aux ts.length ts acc (Nat.le_refl _)
+
+theorem getLast?_map_qc (l : List Tok) : (l.map qc).getLast? = l.getLast?.map qc := by
+  simp [List.getLast?_map]
+
+theorem bigQueryNameForeign_qc (name rest : List Tok) :
+    bigQueryNameForeign (name.map qc) (rest.map qc) = bigQueryNameForeign name rest := by
+  unfold bigQueryNameForeign
+  rw [peekSym_qc _ _ (by decide) (by decide), getLast?_map_qc]
+  congr 1
+  congr 1
+  · rw [List.any_map]
+    congr 1
+    funext t
+    cases t with
+    | word v q kw =>
+      cases kw with
+      | none => rfl
+      | some k => exact encV_dot v
+    | sym s => cases s <;> rfl
+    | _ => rfl
+  · congr 1
+    cases name.getLast? with
+    | none => rfl
+    | some t =>
+      cases t with
+      | word v q kw => cases kw <;> cases q <;> rfl
+      | sym s => cases s <;> rfl
+      | _ => rfl
+
+theorem afterNameForeign_qc (ts : List Tok) : afterNameForeign (ts.map qc) = afterNameForeign ts := by
+  simp [afterNameForeign, peekAnyKw_qc, peekSym_qc]
+
+theorem afterAliasForeign_qc (ts : List Tok) : afterAliasForeign (ts.map qc) = afterAliasForeign ts :=
+  peekAnyKw_qc _ _
+theorem afterFromForeign_qc (ts : List Tok) : afterFromForeign (ts.map qc) = afterFromForeign ts :=
+  peekAnyKw_qc _ _
+theorem afterGroupForeign_qc (ts : List Tok) : afterGroupForeign (ts.map qc) = afterGroupForeign ts :=
+  peekAnyKw_qc _ _
+theorem afterHavingForeign_qc (ts : List Tok) : afterHavingForeign (ts.map qc) = afterHavingForeign ts :=
+  peekAnyKw_qc _ _
+
+theorem optTableAlias_qc (ts : List Tok) : Rel2 (List.map qc) (optTableAlias ts) (optTableAlias (ts.map qc)) := by
+  unfold optTableAlias
+  rcases (optAlias_qc reservedForTableAlias ts).elim with ⟨al, r, h1, h2⟩ | ⟨er, er', h1, h2⟩
+  · rw [h1, h2]
+    simp only [peekSym_qc _ _ (by decide : Sym.LParen ≠ .Eq) (by decide : Sym.LParen ≠ .DoubleEq), List.isEmpty_map]
+    split <;> simp [mp]
+  · rw [h1, h2]; simp
+
+theorem allOrDistinct_qc (ts : List Tok) :
+    Rel2 (fun qd => (qd.1.map qc, qd.2)) (allOrDistinct ts) (allOrDistinct (ts.map qc)) := by
+  unfold allOrDistinct
+  simp only [allTail_qc, mp, eatKw_qc]
+  cases h : eatKw (allTail ts).2 K.DISTINCT with
+  | none => simp [mp]
+  | some p =>
+    obtain ⟨t, r⟩ := p
+    simp only [Option.map_some, mp, List.isEmpty_map, peekKw_qc]
+    split
+    · simp
+    · split <;> simp [mp]
+
+theorem kwExprPart_qc (c : QCfg) (f d k : Nat) (ts : List Tok) :
+    Rel2 (fun w => (w.1.map qc, w.2.map (Expr.mapT qc))) (kwExprPart c f d k ts) (kwExprPart c f d k (ts.map qc)) := by
+  unfold kwExprPart
+  rw [eatKw_qc]
+  cases h : eatKw ts k with
+  | none => simp [mp]
+  | some p =>
+    obtain ⟨kw, r⟩ := p
+    simp only [Option.map_some, mp]
+    rcases (parseE_qc c f d r).elim with ⟨e, r', h1, h2⟩ | ⟨er, er', h1, h2⟩
+    · rw [h1, h2]; simp [mp]
+    · rw [h1, h2]; simp
+
+theorem groupPart_qc (c : QCfg) (f d : Nat) (ts : List Tok) :
+    Rel2 (fun g => (g.1.map qc, sepMap (Expr.mapT qc) qc g.2)) (groupPart c f d ts) (groupPart c f d (ts.map qc)) := by
+  unfold groupPart
+  rw [eatKws_qc]
+  cases h : eatKws ts [K.GROUP, K.BY] with
+  | none => simp [mp, sepMap]
+  | some p =>
+    obtain ⟨kws, r⟩ := p
+    simp only [Option.map_some, mp, peekKw_qc]
+    split
+    · simp
+    · rcases (commaSepE_qc c.e.trailingCommas _ _ _ (groupByElem_qc c f d) f r).elim with ⟨es, r', h1, h2⟩ | ⟨er, er', h1, h2⟩
+      · rw [h1, h2]
+        simp only [peekKw_qc]
+        split <;> simp [mp]
+      · rw [h1, h2]; simp
+
+theorem selTail_qc (c : QCfg) (f d : Nat) (ts : List Tok) :
+    Rel2 (SelTail.mapT qc) (selTail c f d ts) (selTail c f d (ts.map qc)) := by
+  unfold selTail
+  rw [afterFromForeign_qc]
+  split
+  · simp
+  · rcases (kwExprPart_qc c f d K.WHERE ts).elim with ⟨w, ts1, h1, h2⟩ | ⟨er, er', h1, h2⟩
+    · rw [h1, h2]
+      simp only
+      rcases (groupPart_qc c f d ts1).elim with ⟨g, ts2, h3, h4⟩ | ⟨er, er', h3, h4⟩
+      · rw [h3, h4]
+        simp only [afterGroupForeign_qc]
+        split
+        · simp
+        · rcases (kwExprPart_qc c f d K.HAVING ts2).elim with ⟨hv, ts3, h5, h6⟩ | ⟨er, er', h5, h6⟩
+          · rw [h5, h6]
+            simp only [afterHavingForeign_qc]
+            split <;> simp [mp, SelTail.mapT]
+          · rw [h5, h6]; simp
+      · rw [h3, h4]; simp
+    · rw [h1, h2]; simp
+
+theorem selHead_qc (c : QCfg) (f d : Nat) (sel : Tok) (ts : List Tok) :
+    Rel2 (SelHead.mapT qc) (selHead c f d sel ts) (selHead c f d (qc sel) (ts.map qc)) := by
+  unfold selHead
+  rw [peekKw_qc]
+  split
+  · simp
+  · rcases (allOrDistinct_qc ts).elim with ⟨qd, ts1, h1, h2⟩ | ⟨er, er', h1, h2⟩
+    · rw [h1, h2]
+      simp only [peekKw_qc]
+      split
+      · simp
+      · rcases (commaSepE_qc (c.e.trailingCommas || c.projTrailing) _ _ _
+          (selectItem_qc (c.withTrailing (c.e.trailingCommas || c.projTrailing)) f d) f ts1).elim with
+          ⟨proj, ts2, h3, h4⟩ | ⟨er, er', h3, h4⟩
+        · rw [h3, h4]
+          simp only [peekKw_qc]
+          split <;> simp [mp, SelHead.mapT]
+        · rw [h3, h4]; simp
+    · rw [h1, h2]; simp
+
+def FactorHead.mapT (m : Tok → Tok) : FactorHead → FactorHead
+  | .paren lp rest => .paren (m lp) (rest.map m)
+  | .table name al rest => .table (name.map m) (al.map m) (rest.map m)
+
+theorem valuesParenAhead_eq (ts : List Tok) : valuesParenAhead ts = (peekKw ts K.VALUES && peekSym ts.tail .LParen) := by
+  unfold valuesParenAhead
+  congr 1
+  split
+  · simp [peekSym, Tok.isSym]
+  · rename_i h
+    cases ts with
+    | nil => simp [peekSym]
+    | cons t r =>
+      cases r with
+      | nil => simp [peekSym]
+      | cons t2 r2 => cases t2 <;> simp_all [peekSym, Tok.isSym]
+
+theorem valuesParenAhead_qc (ts : List Tok) : valuesParenAhead (ts.map qc) = valuesParenAhead ts := by
+  rw [valuesParenAhead_eq, valuesParenAhead_eq, peekKw_qc, ← List.map_tail, peekSym_qc _ _ (by decide) (by decide)]
+
+/-- results without a rest (`Except Err β`): fail together or succeed with the image -/
+def RelX {β : Type} (M : β → β) : Except Err β → Except Err β → Prop
+  | .ok v, .ok v' => v' = M v
+  | .error _, .error _ => True
+  | _, _ => False
+
+theorem factorHead_qc (c : QCfg) (ts : List Tok) :
+    RelX (FactorHead.mapT qc) (factorHead c ts) (factorHead c (ts.map qc)) := by
+  unfold factorHead
+  rw [peekAnyKw_qc, eatSym_qc _ _ (by decide) (by decide), valuesParenAhead_qc]
+  split
+  · trivial
+  · cases h : eatSym ts .LParen with
+    | some p => obtain ⟨lp, r⟩ := p; simp [mp, RelX, FactorHead.mapT]
+    | none =>
+      simp only [Option.map_none]
+      split
+      · trivial
+      · have h0 := objectName_qc [] ts
+        simp only [List.map_nil] at h0
+        rcases h0.elim with ⟨name, r, h1, h2⟩ | ⟨er, er', h1, h2⟩
+        · rw [h1, h2]
+          simp only [bigQueryNameForeign_qc, afterNameForeign_qc]
+          split
+          · trivial
+          · split
+            · trivial
+            · rcases (optTableAlias_qc r).elim with ⟨al, r', h3, h4⟩ | ⟨er, er', h3, h4⟩
+              · rw [h3, h4]
+                simp only [afterAliasForeign_qc]
+                split
+                · trivial
+                · simp [RelX, FactorHead.mapT]
+              · rw [h3, h4]; trivial
+        · rw [h1, h2]; trivial
+
+theorem RelX.elim {β : Type} {M : β → β} {x y : Except Err β} (h : RelX M x y) :
+    (∃ v, x = .ok v ∧ y = .ok (M v)) ∨ (∃ e e', x = .error e ∧ y = .error e') := by
+  cases x with
+  | error e =>
+    cases y with
+    | error e' => exact Or.inr ⟨e, e', rfl, rfl⟩
+    | ok p' => exact absurd h (by simp [RelX])
+  | ok p =>
+    cases y with
+    | error e' => exact absurd h (by simp [RelX])
+    | ok p' =>
+      simp [RelX] at h; subst h
+      exact Or.inl ⟨p, rfl, rfl⟩
+
+theorem joinHead_qc' (ts : List Tok) : RelX (JoinHead.mapT qc) (joinHead ts) (joinHead (ts.map qc)) := by
+  rw [joinHead_qc]
+  cases joinHead ts <;> simp [Except.map, RelX]
+
+theorem conn_hasCstr_qc (conn : Conn) : (conn.mapT qc).hasCstr = conn.hasCstr := by
+  cases conn with
+  | join k toks => cases k <;> rfl
+  | _ => rfl
+
+-- ------------------------------------------------------------------ the mutual block
+theorem query_qc_all (c : QCfg) (f : Nat) :
+    (∀ d ts, Rel2 (Query.mapT qc) (parseQuery c f d ts) (parseQuery c f d (ts.map qc))) ∧
+    (∀ d prec ts, Rel2 (QNode.mapT qc) (queryBody c f d prec ts) (queryBody c f d prec (ts.map qc))) ∧
+    (∀ d e prec ts, Rel2 (QNode.mapT qc) (remaining c f d e prec ts) (remaining c f d (e.mapT qc) prec (ts.map qc))) ∧
+    (∀ d sel ts, Rel2 (QNode.mapT qc) (parseSelect c f d sel ts) (parseSelect c f d (qc sel) (ts.map qc))) ∧
+    (∀ d conn ts, Rel2 (QNode.mapT qc) (fromItems c f d conn ts) (fromItems c f d (conn.mapT qc) (ts.map qc))) ∧
+    (∀ d b ts, Rel2 (fun kn => (kn.1.mapT qc, kn.2.mapT qc)) (fromRest c f d b ts) (fromRest c f d b (ts.map qc))) := by
+  induction f with
+  | zero => simp [parseQuery, queryBody, remaining, parseSelect, fromItems, fromRest]
+  | succ f ih =>
+    obtain ⟨ihQ, ihB, ihR, ihS, ihF, ihT⟩ := ih
+    refine ⟨?_, ?_, ?_, ?_, ?_, ?_⟩
+    · -- parseQuery
+      intro d ts
+      cases d with
+      | zero => simp [parseQuery]
+      | succ d =>
+        simp only [parseQuery, peekAnyKw_qc]
+        split
+        · simp
+        · rcases (ihB d c.e.prec.unknown ts).elim with ⟨body, ts1, h1, h2⟩ | ⟨er, er', h1, h2⟩
+          · rw [h1, h2]
+            simp only
+            rcases (queryTail_qc c f d ts1).elim with ⟨qt, ts2, h3, h4⟩ | ⟨er, er', h3, h4⟩
+            · rw [h3, h4]; simp [mp, Query.mapT]
+            · rw [h3, h4]; simp
+          · rw [h1, h2]; simp
+    · -- queryBody
+      intro d prec ts
+      cases ts with
+      | nil => simp [queryBody]
+      | cons t rest =>
+        simp only [List.map_cons]
+        unfold queryBody
+        simp only [qc_isKw]
+        split
+        · rcases (ihS d t rest).elim with ⟨s, ts1, h1, h2⟩ | ⟨er, er', h1, h2⟩
+          · rw [h1, h2]; exact ihR d s prec ts1
+          · rw [h1, h2]; simp
+        · cases t with
+          | sym s =>
+            cases s <;> try (simp [qc, Tok.isKw]; done)
+            simp only [qc]
+            rcases (ihQ d rest).elim with ⟨q, ts1, h1, h2⟩ | ⟨er, er', h1, h2⟩
+            · rw [h1, h2]
+              simp only
+              cases ts1 with
+              | nil => simp
+              | cons t2 ts2 =>
+                cases t2 with
+                | sym s2 =>
+                  cases s2 <;> try (simp [qc]; done)
+                  have := ihR d (.paren (.sym .LParen) q.body q.tail (.sym .RParen)) prec ts2
+                  simpa [qc, QNode.mapT, Query.mapT] using this
+                | word a b kw => cases kw <;> simp [qc]
+                | _ => simp [qc]
+            · rw [h1, h2]; simp
+          | word a b kw =>
+            cases kw with
+            | none => simp [qc, Tok.isKw]
+            | some k =>
+              simp only [qc, Tok.isKw]
+              by_cases hh : (k == K.VALUES || k == K.TABLE) = true <;> simp [hh]
+          | _ => simp [qc, Tok.isKw]
+    · -- remaining
+      intro d e prec ts
+      cases ts with
+      | nil => unfold remaining; simp [mp]
+      | cons t rest =>
+        simp only [List.map_cons]
+        unfold remaining
+        simp only [setOpOf_qc]
+        cases ho : setOpOf t with
+        | none => simp [mp]
+        | some o =>
+          simp only
+          split
+          · simp [mp]
+          · simp only [setQuant_qc]
+            rcases (ihB d (precOf o) (setQuant rest).2.2).elim with ⟨r, ts1, h1, h2⟩ | ⟨er, er', h1, h2⟩
+            · rw [h1, h2]
+              simp only
+              have := ihR d (.setOp e o (setQuant rest).1 (t :: (setQuant rest).2.1) r) prec ts1
+              simpa [QNode.mapT] using this
+            · rw [h1, h2]; simp
+    · -- parseSelect
+      intro d sel ts
+      simp only [parseSelect]
+      rcases (selHead_qc c f d sel ts).elim with ⟨hd, ts1, h1, h2⟩ | ⟨er, er', h1, h2⟩
+      · rw [h1, h2]
+        simp only [eatKw_qc]
+        cases hk : eatKw ts1 K.FROM with
+        | some p =>
+          obtain ⟨kw, r⟩ := p
+          simp only [Option.map_some, mp]
+          have h0 := ihF d (.from kw) r
+          simp only [Conn.mapT] at h0
+          rcases h0.elim with ⟨fr, ts2, h3, h4⟩ | ⟨er, er', h3, h4⟩
+          · rw [h3, h4]
+            simp only
+            rcases (selTail_qc c f d ts2).elim with ⟨tl, ts3, h5, h6⟩ | ⟨er, er', h5, h6⟩
+            · rw [h5, h6]; simp [mp, QNode.mapT]
+            · rw [h5, h6]; simp
+          · rw [h3, h4]; simp
+        | none =>
+          simp only [Option.map_none]
+          rcases (selTail_qc c f d ts1).elim with ⟨tl, ts3, h5, h6⟩ | ⟨er, er', h5, h6⟩
+          · rw [h5, h6]; simp [mp, QNode.mapT]
+          · rw [h5, h6]; simp
+      · rw [h1, h2]; simp
+    · -- fromItems
+      intro d conn ts
+      simp only [fromItems, conn_hasCstr_qc]
+      split
+      · simp
+      · rcases (factorHead_qc c ts).elim with ⟨fh, h1, h2⟩ | ⟨er, er', h1, h2⟩
+        · rw [h1, h2]
+          cases fh with
+          | table name al r =>
+            simp only [FactorHead.mapT]
+            rcases (ihT d conn.hasCstr r).elim with ⟨kn, ts', h3, h4⟩ | ⟨er, er', h3, h4⟩
+            · rw [h3, h4]; simp [mp, QNode.mapT]
+            · rw [h3, h4]; simp
+          | paren lp r =>
+            simp only [FactorHead.mapT]
+            rcases (ihQ (d - 1) r).elim with ⟨q, r1, h3, h4⟩ | ⟨er, er', h3, h4⟩
+            · rw [h3, h4]
+              simp only
+              cases r1 with
+              | nil => simp
+              | cons t2 r2 =>
+                cases t2 with
+                | sym s2 =>
+                  cases s2 <;> try (simp [qc]; done)
+                  simp only [List.map_cons, qc]
+                  rcases (optTableAlias_qc r2).elim with ⟨al, r3, h5, h6⟩ | ⟨er, er', h5, h6⟩
+                  · rw [h5, h6]
+                    simp only [peekAnyKw_qc]
+                    split
+                    · simp
+                    · rcases (ihT d conn.hasCstr r3).elim with ⟨kn, ts', h7, h8⟩ | ⟨er, er', h7, h8⟩
+                      · rw [h7, h8]; simp [mp, QNode.mapT, Query.mapT, qc]
+                      · rw [h7, h8]; simp
+                  · rw [h5, h6]; simp
+                | word a b kw => cases kw <;> simp [qc]
+                | _ => simp [qc]
+            · rw [h3, h4]
+              cases er <;> cases er' <;> simp
+        · rw [h1, h2]; simp
+    · -- fromRest
+      intro d b ts
+      simp only [fromRest]
+      rcases (optCstr_qc c f d b ts).elim with ⟨k, ts1, h1, h2⟩ | ⟨er, er', h1, h2⟩
+      · rw [h1, h2]
+        simp only
+        rcases (joinHead_qc' ts1).elim with ⟨jh, h3, h4⟩ | ⟨er, er', h3, h4⟩
+        · rw [h3, h4]
+          cases jh with
+          | join jk toks r =>
+            simp only [JoinHead.mapT]
+            have h0 := ihF d (.join jk toks) r
+            simp only [Conn.mapT] at h0
+            rcases h0.elim with ⟨rest, ts2, h5, h6⟩ | ⟨er, er', h5, h6⟩
+            · rw [h5, h6]; simp [mp]
+            · rw [h5, h6]; simp
+          | stop =>
+            simp only [JoinHead.mapT]
+            cases ts1 with
+            | nil => simp [mp, QNode.mapT]
+            | cons t2 r =>
+              cases t2 with
+              | sym s2 =>
+                cases s2 <;> try (simp [qc, mp, QNode.mapT]; done)
+                simp only [List.map_cons, qc, listEnds_qc]
+                split
+                · simp [mp, QNode.mapT, qc]
+                · have h0 := ihF d (.comma (.sym .Comma)) r
+                  simp only [Conn.mapT, qc] at h0
+                  rcases h0.elim with ⟨rest, ts2, h5, h6⟩ | ⟨er, er', h5, h6⟩
+                  · rw [h5, h6]; simp [mp]
+                  · rw [h5, h6]; simp
+              | word a b kw => cases kw <;> simp [qc, mp, QNode.mapT]
+              | _ => simp [qc, mp, QNode.mapT]
+        · rw [h3, h4]; simp
+      · rw [h1, h2]; simp
+
+theorem parseStatement_qc (c : QCfg) (f limit : Nat) (ts : List Tok) :
+    Rel2 (Query.mapT qc) (parseStatement c f limit ts) (parseStatement c f limit (ts.map qc)) := by
+  unfold parseStatement
+  cases limit with
+  | zero => simp
+  | succ d =>
+    simp only
+    have hq := (query_qc_all c f).1 d ts
+    cases ts with
+    | nil => simp
+    | cons t rest =>
+      simp only [List.map_cons, qc_isKw] at hq ⊢
+      split
+      · exact hq
+      · cases t with
+        | sym s => cases s <;> first | exact hq | simp [qc]
+        | word a b kw => cases kw <;> simp [qc]
+        | _ => simp [qc]
+
+/-- **the query parser respects the token image**: on two token lists with the same image the
+statement parser succeeds on both or on none; the rests have the same image and the trees have the
+same image (same shape, same image in every token slot) -/
+theorem parseStatement_sim2 (c : QCfg) (f limit : Nat) {a b : List Tok} (hs : a.map qc = b.map qc)
+    {q : Query} {r : List Tok} (h : parseStatement c f limit a = .ok (q, r)) :
+    ∃ q' r', parseStatement c f limit b = .ok (q', r') ∧ q'.mapT qc = q.mapT qc ∧ r'.map qc = r.map qc :=
+  Rel2.two (parseStatement_qc c f limit) hs h
+
 end SqlVerif.Query
